@@ -88,7 +88,7 @@ reg(P(
 
 reg(P(
     "C05", "Forward compatibility: an older schema decodes data from an extended one",
-    [("D3", ALL), ("C3", ALL), ("EC3", ALL), ("C1", {"prefix-range"}), ("A9", ALL), ("B3", {"extensible-marker"})],
+    [("D3", ALL), ("C3", ALL), ("EC3", ALL), ("C1", {"prefix-range"}), ("A9", ALL), ("B3", {"extensible-marker"}), ("CC4", {"delegation"}), ("C4", ALL)],
     "in the six extensible processors (message and array x Python/Go/C): the start position is read before the prefix, the prefix is written on encode and read on decode under `extensible`, children run in order, the cursor moves only when decoding, every forward move passes the guard, and the skip target is start + sender-bits for messages and start + 16 + sender-capacity x bits-per-element for arrays (D3, EC3); what the sender writes (nbits / capacity, 16 bits, scratch field number 1) is what the receiver reads (C3); the compiler rejects every message larger than 65535 bits and every array capacity above 65535, the largest numbers the 16-bit prefix can carry (C1 prefix-range).",
     "decoded values; only the position arithmetic is decided.",
 ))
@@ -131,7 +131,7 @@ reg(P(
 
 reg(P(
     "C07", "Encoding touches exactly its bytes, and each field exactly its bits",
-    [("D5", ALL), ("E1", ALL), ("D1", ALL), ("EC1", ALL), ("EC2", ALL), ("D2", ALL), ("C2", ALL), ("F5", {"memset"})],
+    [("D5", ALL), ("E1", ALL), ("D1", ALL), ("EC1", ALL), ("EC2", ALL), ("D2", ALL), ("C2", ALL), ("F5", {"memset"}), ("EC4", ALL), ("A9", ALL), ("B3", {"extensible-marker"})],
     "one source (Message.nbytes(), ceil form) for the size constant in C, Go and Python and for every encode allocation (D5); every chunk is at most the field's remaining bits and fits the byte (E1), every stored chunk is `(...) & mask` with the specification mask (D1, D2); in C unmasked word/byte paths never carry more than the remaining bits and word stores/loads stay inside ceil(n/8) bytes, partial stores are masked (EC1); the batch copy covers exactly nbits * cap bits of storage-sized integers (EC2).",
     "sanitizer-observable behaviour; out-of-range Python integers beyond the masking argument.",
 ))
